@@ -213,6 +213,16 @@ def _objify(x):
 _REDUCERS = ("logical_or", "logical_and", "bitwise_or", "bitwise_and", "add", "maximum", "minimum", "multiply")
 
 
+def _norm_dtype(t):
+    """the shadow globals replace the builtins float/int by symbolic-aware functions; as a dtype they mean float/int"""
+    n = getattr(t, "__name__", None)
+    if n == "_sym_float":
+        return float
+    if n == "_sym_int":
+        return int
+    return t
+
+
 class SymArray(_np.ndarray):
     __array_priority__ = 100
 
@@ -278,9 +288,17 @@ class SymArray(_np.ndarray):
         return _raw(self).item(*a)
 
     def astype(self, t, **kw):
+        t = _norm_dtype(t)
         if t is bool or t == "bool" or t is _np.bool_:
             return _concretise_bools(self)
-        if t in (float, "float", _np.float64, "float64", object):
+        if t in (float, "float", _np.float64, "float64"):
+            out = self.copy()
+            r = _raw(out)
+            for idx in _np.ndindex(r.shape):
+                if isinstance(r[idx], complex):
+                    r[idx] = r[idx].real        # numpy discards the imaginary part (ComplexWarning)
+            return out
+        if t is object:
             return self.copy()
         if t in (int, "int", _np.int64, _np.intp):
             flat = _raw(self).ravel()
@@ -803,6 +821,22 @@ def _ndim(x):
     return _np.ndim(_raw(x))
 
 
+def _average(a, axis=None, weights=None):
+    if weights is None:
+        return _mean(a, axis=axis)
+    if axis is not None:
+        raise PathAbort("np.average with weights along an axis")
+    av = _np.asarray(_raw(a), dtype=object).ravel()
+    wv = _np.asarray(_raw(weights), dtype=object).ravel()
+    if av.shape != wv.shape:
+        raise TypeError("Axis must be specified when shapes of a and weights differ.")
+    num, den = 0, 0
+    for x, w in zip(av, wv):
+        num = num + x * w
+        den = den + w
+    return num / den
+
+
 _FUNCS = {
     "delete": _delete, "argwhere": _argwhere, "unique": _unique, "round": _round, "around": _round,
     "any": _any, "all": _all, "sort": _sort, "argsort": _argsort, "argmin": _argmin, "argmax": _argmax,
@@ -813,7 +847,7 @@ _FUNCS = {
     "min": lambda a, axis=None, **kw: _reduce("minimum", _raw(a), axis),
     "sum": lambda a, axis=None, **kw: _reduce("add", _raw(a), axis),
     "prod": lambda a, axis=None, **kw: _reduce("multiply", _raw(a), axis),
-    "mean": _mean, "std": _std, "var": _var, "dot": _matmul, "matmul": _matmul,
+    "mean": _mean, "std": _std, "var": _var, "dot": _matmul, "matmul": _matmul, "average": lambda a, axis=None, weights=None, **kw: _average(a, axis, weights),
     "copy": lambda a, **kw: _np.array(_raw(a), dtype=object, copy=True).view(SymArray),
     "isclose": _isclose,
     "allclose": lambda a, b, rtol=1e-05, atol=1e-08, **kw: _all(_isclose(a, b, rtol, atol)),
@@ -936,11 +970,16 @@ class NpProxy(types.ModuleType):
         return self.ones(_np.shape(_raw(a)))
 
     def array(self, obj, dtype=None, **kw):
+        dtype = _norm_dtype(dtype)
+        if isinstance(obj, SymArray) and dtype in (float, _np.float64) and not _contains_sym(obj):
+            # a SymArray whose elements are all concrete (e.g. +-inf bounds): stays a SymArray so that later symbolic writes work
+            return obj.copy()
         if _contains_sym(obj):
             return _post(_np.array(_map_raw(obj), dtype=object, **{k: v for k, v in kw.items() if k != "copy"}))
         return _np.array(obj, dtype=dtype, **kw)
 
     def asarray(self, obj, dtype=None, **kw):
+        dtype = _norm_dtype(dtype)
         if isinstance(obj, SymArray):
             return obj
         if _contains_sym(obj):
